@@ -1240,7 +1240,9 @@ func readRecordSet(ctx context.Context, reader RecordReader, fileSize int64) (Re
 				}
 			}
 
-			if 0 < fileSize && 0 < pos && len(recordSet) == fileLoadingPreparedRecordSetCap && int64(pos) < fileSize {
+			// pos is written by the reading goroutine for the first fileLoadingPreparedRecordSetCap rows only:
+			// look at it only after that many rows have been received
+			if 0 < fileSize && len(recordSet) == fileLoadingPreparedRecordSetCap && 0 < pos && int64(pos) < fileSize {
 				l := int((float64(fileSize) / float64(pos)) * fileLoadingPreparedRecordSetCap * 1.2)
 				newSet := make(RecordSet, fileLoadingPreparedRecordSetCap, l)
 				copy(newSet, recordSet)
@@ -1381,7 +1383,9 @@ func loadViewFromJsonLinesFile(ctx context.Context, flags *option.Flags, fp *fil
 				}
 			}
 
-			if 0 < fileSize && 0 < pos && len(objectList) == fileLoadingPreparedRecordSetCap && int64(pos) < fileSize {
+			// pos is written by the reading goroutine for the first fileLoadingPreparedRecordSetCap rows only:
+			// look at it only after that many rows have been received
+			if 0 < fileSize && len(objectList) == fileLoadingPreparedRecordSetCap && 0 < pos && int64(pos) < fileSize {
 				l := int((float64(fileSize) / float64(pos)) * fileLoadingPreparedRecordSetCap * 1.2)
 				newSet := make([]txjson.Object, fileLoadingPreparedRecordSetCap, l)
 				copy(newSet, objectList)
